@@ -71,7 +71,19 @@ def check_output(s, tab):
 def _work(job):
     from harness.common import set_table
     tname, strings = job
-    tab = set_table(tname)
+    import selfies as sf
+    set_table(tname)
+    # caller-side mutation of every object the configuration API hands out must not change the table in force
+    try:
+        sf.decoder('[C][=N][O][S][P][F]')
+        for name in ('default', 'octet_rule', 'hypervalent'):
+            p = sf.get_preset_constraints(name)
+            p.update({'N': 1, 'C': 1, 'F': 3, '?': 1})
+        g = sf.get_semantic_constraints()
+        g.update({'C': 0, 'O': 5, '?': 0})
+    except Exception:
+        pass
+    tab = sf.get_semantic_constraints()
     n, nt, bad = 0, set(), []
     for s in strings:
         n += 1
